@@ -68,6 +68,11 @@ def make(rng, kind, d=2):
             kern = [None, R2LogR2RBF(s.points.copy()), R2LogRRBF(s.points.copy())][k]
             return mt.ThinPlateSplines(s.copy(), t.copy(), kernel=kern, min_singular_val=msv)
         return build(), build
+    if kind in ("R2LogR2RBF", "R2LogRRBF"):
+        from menpo.transform import rbf
+        c = rng.uniform(-0.8 * BOX, 0.8 * BOX, (int(rng.integers(2, 9)), d))
+        cls = getattr(rbf, kind)
+        return cls(c.copy()), (lambda: cls(c.copy()))
     if kind == "WithDims":
         if d == 3:
             dims = [[0, 1], [1, 2], [2, 0, 1], [0, 2], np.array([True, False, True])][rng.integers(0, 5)]
